@@ -180,6 +180,10 @@ def binop(it, op, a, b, inplace=False):
             raise Unsupported("binop on Val")
         f = z3.Function(name, smt.Val, smt.Val, smt.Val)
         return ValSV(f(it.to_val(a), it.to_val(b)))
+    if isinstance(a, float) and a == int(a):
+        a = int(a)  # A-time: an integral float tick count is that many ticks
+    if isinstance(b, float) and b == int(b):
+        b = int(b)
     if isinstance(a, float) or isinstance(b, float):
         raise Unsupported("float arithmetic with symbolic operand")
     ta, tb = it.to_int(a), it.to_int(b)
